@@ -45,6 +45,12 @@ def run(tier):
             for case in algebra.exponent_cases(nm):
                 algebra.end_to_end(chk, F, ty, nm, "prim-fn", lambda ctx, case=case: pow_real(case), exponent_case=case,
                                    all_presence=thorough or not vec)
+        from . import c15
+        imp_ = algebra.dualnum_impl(F, ty)
+        for n_ in (0, 1, 2):
+            b_ = F.impl_item(imp_, "sph_j%d" % n_) if imp_ else None
+            if b_ is not None:
+                c15.lifting(chk, F, ty, n_, b_)
         c09.check_powd(chk, F, ty)
         c01.check_sin_cos(chk, F, ty)
         c01.check_atan2(chk, F, ty)
